@@ -59,7 +59,7 @@ fn is_literal_atom(s: &str) -> bool {
 }
 
 pub const ATOMS_CORE: &[&str] = &["a", "b", "[ab]", "[^a]", ".", "é"];
-pub const ATOMS_EXT: &[&str] = &["c", "[a-c]", "€", "😊", "[α-ω]", "\\p{Greek}", "[a-ce-g]", "\\n"];
+pub const ATOMS_EXT: &[&str] = &["c", "[a-c]", "€", "😊", "[α-ω]", "\\p{Greek}", "[a-ce-g]", "\\n", "[a&&b]"];
 pub const ATOMS_LOOK: &[&str] = &["(?-u:\\b)", "(?-u:\\B)", "$", "(?m:$)", "(?m:^)", "^"];
 pub const POSTFIX: &[&str] = &["*", "+", "?", "{2}", "{1,2}", "{2,}", "*?", "+?", "??"];
 pub const FLAGS: &[&str] = &["i", "s"];
@@ -217,7 +217,7 @@ pub fn family(tier: Tier) -> Vec<Spec> {
     match tier {
         Tier::Quick => {
             let mut atoms: Vec<&str> = ATOMS_CORE.to_vec();
-            atoms.extend(["$", "(?m:$)", "(?-u:\\b)", "€"]);
+            atoms.extend(["$", "(?m:$)", "(?-u:\\b)", "€", "[a&&b]"]);
             let f1 = terms(&atoms, 1, POSTFIX, FLAGS);
             for t in &f1 {
                 specs.extend(single_forms(t, true, true));
